@@ -58,7 +58,7 @@ class CHECK(Check):
         thorough = self.tier == 'thorough'
         for d, m in self.models.items():
             f = self.fams[d]
-            sents = set(f.s0_pairs())
+            sents = set(f.s0_pairs()) | set(f.s0_sibling_pairs())
             if thorough:
                 sents |= set(f.s0_edges())
             for s in sorted(sents):
